@@ -207,3 +207,28 @@ Module Demo.
       = [Some (XS (AFin 7)); Some (XS (AFin 7)); Some (XS (AFin 14)); Some (XS (AFin 122))]%Z.
   Proof. split; vm_compute; reflexivity. Qed.
 End Demo.
+
+(** Why the invariant [Fixed] is part of [Cache]: the C01 invariant alone ([Inv] + one slot per node) does not give the
+    interface fact [set_agree].  One hyper-parameter node; two dictionaries that differ on it are both [Inv]-consistent and
+    agree on the empty set of variables; the assignment to the node is refused on both sides (it is not settable), so they do
+    not agree on [vadd 0 (fun _ => false)].  No reachable State object holds anything but 1 there ([Fixed]). *)
+Module FixedNeeded.
+  Definition g : graph xval := mk_graph [mkN false false (Some (XS (AFin 1%Z))) false [] [] [] NLog2].
+  Definition l1 : st xval := [Some (XS (AFin 1%Z))].
+  Definition l2 : st xval := [Some (XS (AFin 2%Z))].
+  Example fixed_is_needed :
+    (List.length l1 = gn g /\ Inv g (to_vals xval l1)) /\ (List.length l2 = gn g /\ Inv g (to_vals xval l2)) /\
+    r_write xval g l1 0 None = l1 /\ r_write xval g l2 0 None = l2 /\
+    vadd 0 (fun _ => false) 0 = true /\ linked g 0 = false /\
+    to_vals xval (r_write xval g l1 0 None) 0 <> to_vals xval (r_write xval g l2 0 None) 0 /\
+    Fixed xval g (to_vals xval l1) /\ ~ Fixed xval g (to_vals xval l2).
+  Proof.
+    assert (I : forall l, Inv g (to_vals xval l)).
+    { intros l k v Hk Lk. cbn in Hk. assert (k = 0) by lia. subst. discriminate. }
+    split; [split; [reflexivity | apply I]|]. split; [split; [reflexivity | apply I]|].
+    split; [vm_compute; reflexivity|]. split; [vm_compute; reflexivity|]. split; [reflexivity|]. split; [reflexivity|].
+    split; [vm_compute; discriminate|]. split.
+    - intros k Hk _ _. cbn in Hk. assert (k = 0) by lia. subst. reflexivity.
+    - intros H. specialize (H 0 (le_n 1) eq_refl eq_refl). vm_compute in H. discriminate.
+  Qed.
+End FixedNeeded.
